@@ -10,5 +10,6 @@ CONSTANTS
   FixSave = FALSE
   FixRecover = FALSE
   FixRelease = FALSE
+  SplitCleanup = FALSE
 VIEW View
 ACTION_CONSTRAINT EmitEdge
